@@ -119,6 +119,7 @@ def run_property(prop, tier, seed):
     samples = []
     paths_total = 0
     probes = probes_ok = 0
+    probe_state = {}
     replay_jobs = []
     gmap = {g.name: g for g in groups}
 
@@ -141,11 +142,8 @@ def run_property(prop, tier, seed):
                 samples.append(dict(group=g.name, world=g.world, **sp))
         for ob in r.get("obligations", []):
             if ob.get("kind") == "must-fail":
-                probes += 1
-                if ob["status"] == "refuted":
-                    probes_ok += 1
-                else:
-                    errors.append((g.name, "vacuity probe %s was not refuted (%s)" % (ob["label"], ob["status"])))
+                # vacuity probe: a deliberately false clause; it has to be refuted on at least one path of its group
+                probe_state.setdefault((g.name, ob["label"]), []).append(ob["status"])
                 continue
             n_obl += 1
             if ob["status"] == "proved":
@@ -155,6 +153,13 @@ def run_property(prop, tier, seed):
                 replay_jobs.append((g, ob))
             else:
                 undecided.append((g.name, ob["label"], ob.get("detail", "") or ob.get("backend", "")))
+
+    for (gn, lab), sts in probe_state.items():
+        probes += 1
+        if "refuted" in sts:
+            probes_ok += 1
+        else:
+            errors.append((gn, "vacuity probe '%s' was not refuted on any path (%s)" % (lab, sorted(set(sts)))))
 
     # native replay of every counter-model
     rjobs = [((i,), _replay_values, (("props." + prop, g.name, ob.get("model", {}), tier),), 120) for i, (g, ob) in enumerate(replay_jobs)]
